@@ -122,7 +122,7 @@ theorem applyItems_append (known : Nat → Bool) (w : Bool) : ∀ (a b : List (N
 
 theorem applyItems_known (known : Nat → Bool) (w : Bool) (u : Bytes) : ∀ (l acc : List (Nat × Bytes)),
     (∀ x ∈ l, known x.1 = true ∧ x.2.length < 2 ^ 64) → (acc ++ l).Pairwise (fun a b => a.1 ≠ b.1) →
-    applyItems known w ⟨acc, u⟩ (l.map (cbValue w)) = .ok ⟨acc ++ l, u⟩
+    applyItems known w ⟨acc, u⟩ (l.map (cbValue true)) = .ok ⟨acc ++ l, u⟩
   | [], acc, _, _ => by simp [applyItems]
   | (t, p) :: r, acc, hk, hp => by
     obtain ⟨hkt, hlen⟩ := hk (t, p) (by simp)
@@ -132,23 +132,21 @@ theorem applyItems_known (known : Nat → Bool) (w : Bool) (u : Bytes) : ∀ (l 
     have ih := applyItems_known known w u r (acc ++ [(t, p)]) (fun y hy => hk y (by simp [hy]))
       (by simpa [List.append_assoc] using hp)
     simp only [List.append_assoc, List.singleton_append] at ih
-    simp only [List.map_cons, applyItems, cbValue]
-    cases w
-    · simp only [applyItem, hkt, if_true, Bool.false_eq_true, if_false, mergeItem_new acc t p hnew]
-      simpa using ih
-    · simp only [applyItem, hkt, if_true, decBytes_enc hlen [] |> (by simpa using ·), mergeItem_new acc t p hnew]
-      simpa using ih
+    have hd := decBytes_enc hlen []
+    simp only [List.append_nil] at hd
+    simp only [List.map_cons, applyItems, cbValue, if_true, applyItem, hkt, hd, mergeItem_new acc t p hnew]
+    simpa using ih
 
 theorem applyItems_unknown (known : Nat → Bool) (w : Bool) (acc : List (Nat × Bytes)) :
     ∀ (us : List (Nat × Bytes)) (u : Bytes), (∀ x ∈ us, known x.1 = false) →
-    applyItems known w ⟨acc, u⟩ (us.map (cbValue w)) = .ok ⟨acc, u ++ encodeUnknown us⟩
+    applyItems known w ⟨acc, u⟩ (us.map (cbValue true)) = .ok ⟨acc, u ++ encodeUnknown us⟩
   | [], u, _ => by simp [applyItems, encodeUnknown]
   | (t, p) :: r, u, hk => by
     have hkt := hk (t, p) (by simp)
     have ih := applyItems_unknown known w acc r (u ++ tag t wBytes ++ encBytes p) (fun y hy => hk y (by simp [hy]))
-    simp only [List.map_cons, applyItems, cbValue, applyItem, hkt, Bool.false_eq_true, if_false]
-    cases w <;> simp only [if_true, Bool.false_eq_true, if_false] <;> rw [ih] <;>
-      simp [encodeUnknown, List.append_assoc]
+    simp only [List.map_cons, applyItems, cbValue, applyItem, hkt, Bool.false_eq_true, if_false, if_true]
+    rw [ih]
+    simp [encodeUnknown, List.append_assoc]
 
 /-- decoding the encoder's output: the extensions in the order written, the unresolved items as
 `(t, bytes)` unknown records — both paths -/
@@ -157,7 +155,7 @@ theorem decodeSet_encodeItems (known : Nat → Bool) (w : Bool) (its us : List (
     (hd : its.Pairwise (fun a b => a.1 ≠ b.1)) :
     decodeSet known w (encodeItems (its ++ us)) = .ok ⟨its, encodeUnknown us⟩ := by
   unfold decodeSet
-  rw [unmarshalItems_encodeItems w (its ++ us) (by
+  rw [unmarshalItems_encodeItems true (its ++ us) (by
     intro x hx
     rcases List.mem_append.1 hx with h | h
     · exact (hi x h).1
